@@ -1,6 +1,6 @@
 (* C13 proofs: Rouwenhorst matrix (row moments by induction on the recursive construction),
    Tauchen rows for an arbitrary monotone cdf, estimate_mc counting. *)
-From Coq Require Import ZArith QArith Qabs List Bool Lia Lqa Setoid Morphisms ZifyBool.
+From Coq Require Import ZArith QArith Qabs List Bool Lia Lqa Setoid Morphisms ZifyBool Sorted.
 From QE Require Import Base.Num C16.Model C13.Model.
 Import ListNotations.
 Open Scope Q_scope.
@@ -851,4 +851,91 @@ Proof.
       assert (E0 : count_tr tr i j = 0%nat) by lia. rewrite E0. unfold natQ. cbn. ring.
     + field. intro E; pose proof (natQ_pos (S d) ltac:(lia)); lra.
   - intro Hpos. apply sum_normalize. rewrite Hout. assumption.
+Qed.
+
+(* ------------------------------------------------------------------ states = sorted distinct observations *)
+Lemma Qltb_ge a b : Qltb a b = false <-> b <= a.
+Proof.
+  unfold Qltb. rewrite negb_false_iff. apply Qle_bool_iff.
+Qed.
+
+Ltac qb :=
+  repeat match goal with
+  | H : Qltb _ _ = true |- _ => apply Qltb_lt in H
+  | H : Qltb _ _ = false |- _ => apply Qltb_ge in H
+  end.
+
+Lemma lex_ltb_trans : forall a b c, lex_ltb a b = true -> lex_ltb b c = true -> lex_ltb a c = true.
+Proof.
+  induction a as [|x a IH]; intros [|y b] [|z c] H1 H2; cbn [lex_ltb] in *; try discriminate; try reflexivity.
+  destruct (Qltb x y) eqn:E1; [|destruct (Qltb y x) eqn:E2; [discriminate|]];
+  (destruct (Qltb y z) eqn:E3; [|destruct (Qltb z y) eqn:E4; [discriminate|]]);
+  destruct (Qltb x z) eqn:E5; try reflexivity; destruct (Qltb z x) eqn:E6; qb; try lra.
+  eapply IH; eassumption.
+Qed.
+
+Lemma lex_trichotomy : forall a b, lex_ltb a b = false -> lex_eqb a b = false -> lex_ltb b a = true.
+Proof.
+  induction a as [|x a IH]; intros [|y b] H1 H2; cbn [lex_ltb lex_eqb] in *; try discriminate; try reflexivity.
+  destruct (Qltb x y) eqn:E1; [discriminate|]. destruct (Qltb y x) eqn:E2; [reflexivity|].
+  qb. assert (E : Qeq_bool x y = true) by (apply Qeq_bool_iff; lra). rewrite E in H2. cbn [andb] in H2.
+  apply IH; assumption.
+Qed.
+
+Lemma lex_ltb_not_eqb : forall a b, lex_ltb a b = true -> lex_eqb a b = false.
+Proof.
+  induction a as [|x a IH]; intros [|y b] H; cbn [lex_ltb lex_eqb] in *; try discriminate; try reflexivity.
+  destruct (Qltb x y) eqn:E1.
+  - qb. destruct (Qeq_bool x y) eqn:E; [apply Qeq_bool_iff in E; lra|reflexivity].
+  - destruct (Qltb y x) eqn:E2; [discriminate|]. rewrite (IH _ H). apply andb_false_r.
+Qed.
+
+Lemma uinsert_in x z : forall l, In z (uinsert x l) -> z = x \/ In z l.
+Proof.
+  induction l as [|h t IH]; cbn [uinsert]; intro H.
+  - destruct H as [<-|[]]. left. reflexivity.
+  - destruct (lex_eqb x h); [right; assumption|]. destruct (lex_ltb x h).
+    + destruct H as [<-|H]; [left; reflexivity|right; assumption].
+    + destruct H as [<-|H]; [right; left; reflexivity|]. destruct (IH H) as [->|H']; [left; reflexivity|right; right; assumption].
+Qed.
+
+Definition llt (a b : list Q) : Prop := lex_ltb a b = true.
+
+Lemma uinsert_sorted x l : StronglySorted llt l -> StronglySorted llt (uinsert x l).
+Proof.
+  induction 1 as [|h t Hs IH Hf]; cbn [uinsert].
+  - constructor; constructor.
+  - destruct (lex_eqb x h) eqn:E1; [constructor; assumption|].
+    destruct (lex_ltb x h) eqn:E2.
+    + constructor; [constructor; assumption|]. constructor; [exact E2|].
+      eapply Forall_impl; [|exact Hf]. intros z Hz. eapply lex_ltb_trans; eassumption.
+    + constructor; [assumption|]. apply Forall_forall. intros z Hz.
+      destruct (uinsert_in x z t Hz) as [->|Hin].
+      * apply lex_trichotomy; assumption.
+      * rewrite Forall_forall in Hf. apply Hf. assumption.
+Qed.
+
+(* np.unique: the states are strictly increasing in lexicographic order (hence pairwise distinct),
+   every state is an observation and every observation equals (Qeq, componentwise) some state *)
+Lemma unique_rows_spec X :
+  StronglySorted llt (unique_rows X) /\
+  (forall s, In s (unique_rows X) -> In s X) /\
+  (forall x, In x X -> existsb (lex_eqb x) (unique_rows X) = true).
+Proof.
+  split; [|split].
+  - induction X as [|x X IH]; cbn [unique_rows fold_right]; [constructor|]. apply uinsert_sorted. exact IH.
+  - induction X as [|x X IH]; cbn [unique_rows fold_right]; intros s Hs; [contradiction|].
+    destruct (uinsert_in x s _ Hs) as [->|H]; [left; reflexivity|right; apply IH; assumption].
+  - intros x Hx. apply unique_rows_has. assumption.
+Qed.
+
+(* fit_discrete_mc is estimate_mc applied to the nearest-grid-point indices (C16 model) *)
+Lemma fit_is_estimate_of_nearest orderF grids X :
+  let ind := map (fun x => cartesian_nearest_index orderF grids x) X in
+  let '(st, _, P) := estimate_mc (map (fun z => [inject_Z z]) ind) in
+  fit_discrete_mc orderF grids X =
+  (map (fun s => nth (Z.to_nat (Qnum (getQ s 0))) (cartesian 0 orderF grids) []) st, P).
+Proof.
+  cbv zeta. unfold fit_discrete_mc.
+  destruct (estimate_mc _) as [[st idx] P]. reflexivity.
 Qed.
